@@ -14,7 +14,8 @@ any rule runs): a generator function or method of the writer's module that one `
 appends is read as its generator, astutil.accumulator_as_generator: one `yield <value>` written as a statement outside try / with,
 no `return`; `continue` in the consumer needs the yield to be the last thing the generator's loop
 body does, `break` needs that loop to be the generator's last statement; anything else is left
-alone), and a parameter that is a record object of the program (a @dataclass / NamedTuple that only
+alone; a generator drained on the spot - `X = list(g(..))`, `[*g(..)]`, `[v for v in g(..)]`, `X.extend(g(..))`,
+`X += g(..)` - is first written as the loop that appends what it yields, astutil.drains_as_loops), and a parameter that is a record object of the program (a @dataclass / NamedTuple that only
 stores its constructor arguments) read only by field, for which every call in the program passes
 a construction, is one parameter per field with the constructor's arguments passed at the call
 (`_dissolve_record_parameters`).  Values are followed through `a, b = <display>` and through
@@ -93,7 +94,14 @@ R4  count recorded (T-ORDER): every path of `add` to `return True` passes
     and every INSERT of it comes with emptying it.  Positive control embedded
     (a buffering importer that commits on the connection without flushing).
 R5  rejection sites ⊆ documented reasons; `is_row_valid` evaluated on the table of
-    documented field values rejects exactly the documented ones.
+    documented field values rejects exactly the documented ones.  In `add` every `return False`
+    is taken only for an airport look-up that gave None or a distance check that failed: each
+    guard atom is such a reason (or a disjunction of them, or the complement of one left behind
+    by an earlier exit of an if/elif chain, next to a reason).  An atom about a value that is no
+    reason by itself (`v is None`, `not v`, `v`) is followed into v: a local bound on several
+    branches has the conditional value it has at the test, a call of a repository function the
+    values of its exits (and of running off its end); every way to the skipping value must be
+    taken for documented reasons only, whatever helper or local carries the verdict (depth 4).
 R6  expansion shape: inclusive daily pd.date_range over the two effective dates
     (zero-expected `inclusive=`/`closed=`/`periods=`/`freq=` with positive control).  What
     the per-day loop iterates over is followed to that call - through locals, list()/tuple()
@@ -128,7 +136,9 @@ R7  plausibility rule, by evaluation: _distance_check is run by the checker's in
     explicitly.  Dropped iff geodesic < zero threshold, or stated > 0 and |stated - geodesic|
     > abs threshold and 100 |...| / geodesic > percent threshold; guard clauses, flags, early
     returns, helper methods and tuple unpacking of the geodesic result are all the same
-    function.  The stated distance reaches it as <row distance> x 1.609344 by value.
+    function.  The stated distance reaches it as <row distance> x 1.609344 by value, at the call
+    of `_distance_check` written in `add` or in a repository function `add` hands its values to
+    (arguments followed back through the helpers' parameters, depth 3).
 R8  the airport reader admits every row that carries an IATA code.
 """
 
@@ -140,7 +150,7 @@ import itertools
 import re
 from fractions import Fraction
 
-from ..astutil import (LOG_CALLS, accumulator_as_generator, ancestors, call_name, calls_in, conjuncts, const_value, guards_of, is_within, local_defs,
+from ..astutil import (LOG_CALLS, accumulator_as_generator, drains_as_loops, fold_drained_appends, ancestors, call_name, calls_in, conjuncts, const_value, guards_of, is_within, local_defs,
                        names_in, norm, set_parents, single_def_value, splice_generator_loops, stmt_of, stores_to, tuple_def_component,
                        walk_no_nested)
 from ..cfg import CFG
@@ -2778,24 +2788,175 @@ def _rule_r5(ctx, prog, om, add):
     ctx.floor('C13-R5', len(table), 20, 'documented field values evaluated through is_row_valid')
     for n in walk_no_nested(add.node):
         if isinstance(n, ast.Return) and isinstance(n.value, ast.Constant) and n.value.value is False:
-            atoms = _atoms([(t, pol) for t, pol, _ in guards_of(n)])
-            ok = bool(atoms)
-            for t, pol in atoms:
-                ft = _subst(add.node, t)
-                unknown_airport = isinstance(ft, ast.Compare) and len(ft.ops) == 1 and isinstance(ft.ops[0], ast.Is) \
-                    and pol and isinstance(ft.comparators[0], ast.Constant) and ft.comparators[0].value is None \
-                    and any(isinstance(c, ast.Call) and 'airport' in _tokens(call_name(c)) for c in ast.walk(ft.left))
-                unknown_airport = unknown_airport or (isinstance(t, ast.BoolOp) and isinstance(t.op, ast.Or) and pol and all(
-                    isinstance(x, ast.Compare) and isinstance(x.ops[0], ast.Is) and const_value(x.comparators[0]) is None
-                    and any(isinstance(c, ast.Call) and 'airport' in _tokens(call_name(c)) for c in ast.walk(_subst(add.node, x.left)))
-                    for x in t.values))
-                distance = not pol and any(isinstance(c, ast.Call) and {'distance', 'check'} <= _tokens(call_name(c))
-                                           for c in ast.walk(ft))
-                ok = ok and (unknown_airport or distance)
+            why = _skip_reasons_documented(prog, add, _guard_facts(n), {}, 0)
+            ok = not why
             gs = [norm(t) for t, pol, _ in guards_of(n)]
             ctx.ob('C13-R5', add, f'import skipped under {gs}', ok,
-                   'unknown airport / implausible distance' if ok else 'row skipped for an undocumented reason',
+                   'unknown airport / implausible distance' if ok else
+                   'row skipped for an undocumented reason' + (f' ({why[0]})' if why[0] != 'here' else ''),
                    line=n.lineno)
+
+
+def _guard_facts(n: ast.AST) -> list:
+    """[(test, polarity, statement the test is evaluated at)]: the atomic facts construct n is control-dependent on"""
+    return [(a, p, stmt_of(owner)) for t, pol, owner in guards_of(n) for a, p in conjuncts(t, pol)]
+
+
+def _documented_skip_atom(ft: ast.expr, pol: bool) -> bool:
+    """is the fact `ft has truth value pol` (ft: locals already replaced by their values) a documented reason for
+    skipping a row at import - an airport look-up that gave None, a distance check that failed - or a disjunction of
+    such reasons?"""
+    if isinstance(ft, ast.UnaryOp) and isinstance(ft.op, ast.Not):
+        return _documented_skip_atom(ft.operand, not pol)
+    if isinstance(ft, ast.BoolOp) and ((isinstance(ft.op, ast.Or) and pol) or (isinstance(ft.op, ast.And) and not pol)):
+        return all(_documented_skip_atom(x, pol) for x in ft.values)
+    if isinstance(ft, ast.BoolOp):
+        return False
+    if isinstance(ft, ast.Compare) and len(ft.ops) == 1 and isinstance(ft.comparators[0], ast.Constant) \
+            and ft.comparators[0].value is None and isinstance(ft.ops[0], (ast.Is, ast.IsNot)):
+        return isinstance(ft.ops[0], ast.Is) == pol and not isinstance(ft.left, (ast.IfExp, ast.BoolOp)) and any(
+            isinstance(c, ast.Call) and 'airport' in _tokens(call_name(c)) for c in ast.walk(ft.left))
+    if isinstance(ft, (ast.IfExp, ast.Compare)):
+        return False
+    return not pol and any(isinstance(c, ast.Call) and {'distance', 'check'} <= _tokens(call_name(c))
+                           for c in ast.walk(ft))
+
+
+def _value_is(e: ast.expr, kind: str):
+    """does the written value e satisfy kind ('none' / 'falsy' / 'truthy')?  True / False / None = not known"""
+    if isinstance(e, ast.Constant):
+        return {'none': e.value is None, 'falsy': not e.value, 'truthy': bool(e.value)}[kind]
+    if isinstance(e, (ast.Tuple, ast.List, ast.Set, ast.Dict)):
+        n = len(e.keys) if isinstance(e, ast.Dict) else len(e.elts)
+        if kind == 'none':
+            return False
+        if any(isinstance(x, ast.Starred) for x in getattr(e, 'elts', ())) or (isinstance(e, ast.Dict) and None in e.keys):
+            return None
+        return (n == 0) if kind == 'falsy' else (n > 0)
+    if kind == 'none' and isinstance(e, (ast.Compare, ast.BinOp, ast.UnaryOp, ast.JoinedStr, ast.ListComp, ast.SetComp,
+                                         ast.DictComp, ast.GeneratorExp, ast.Lambda)):
+        return False
+    return None
+
+
+_SKIP_DEPTH = 4
+
+
+def _skip_reasons_documented(prog, fi, facts, env: dict, depth: int) -> list[str]:
+    """The facts [(test, polarity, statement | None)] hold, in function fi, on a path that skips the row (env: parameter
+    of fi -> the caller's value).  [] when every one of them is a documented reason (or the complement of one, left
+    behind by an earlier exit of an if/elif chain, next to at least one reason); otherwise what is not.  A fact about a
+    value that is no reason by itself - `v is None`, `not v`, `v` - is followed into v: a local takes the values it has
+    at the test (a conditional expression over the branches that bound it), a call of a repository function the values
+    of its exits; each way to the skipping value must be taken for documented reasons only, whatever the helper or the
+    local is called and however many levels deep it is."""
+    here = depth == 0
+    if not facts:
+        return ['here' if here else f'{fi.qualname}: the skipping result is unconditional']
+    sym = _Sym(prog)
+    out, reasons = [], 0
+    for t, pol, at in facts:
+        ft = t
+        if at is not None:
+            ft = _subst(fi.node, t)
+            params = set(fi.params)
+            if any(isinstance(x, ast.Name) and isinstance(x.ctx, ast.Load) and x.id not in params
+                   and len(local_defs(fi.node, x.id)) > 1 for x in ast.walk(ft)):
+                e0 = _env_at(sym, fi, at)
+                if e0 is not None:
+                    pv = sym.ev(fi, t, e0)
+                    if not _has_opaque(pv):
+                        ft = _subst(fi.node, pv)
+            ft = _param_subst(ft, env)
+        if _documented_skip_atom(ft, pol):
+            reasons += 1
+            continue
+        if _documented_skip_atom(ft, not pol):
+            continue                                        # not an earlier reason: narrows the path, skips nothing
+        sub = _result_fact(prog, fi, ft, pol, env, depth)
+        if sub is None:
+            out.append('here' if here else f'{fi.qualname}: {"" if pol else "not "}{norm(t)}')
+        elif sub:
+            out.extend(sub)
+        else:
+            reasons += 1
+    if not out and not reasons:
+        out.append('here' if here else f'{fi.qualname}: no documented reason on the path')
+    return out
+
+
+def _result_fact(prog, fi, ft: ast.expr, pol: bool, env: dict, depth: int):
+    """ft/pol is a fact about the value of a conditional expression or of one call of a repository function: None when
+    it is not of that form (or the callee cannot be read), else the list of undocumented reasons among the ways that
+    make the fact true"""
+    if depth >= _SKIP_DEPTH:
+        return None
+    while isinstance(ft, ast.UnaryOp) and isinstance(ft.op, ast.Not):
+        ft, pol = ft.operand, not pol
+    v, kind = ft, ('truthy' if pol else 'falsy')
+    if isinstance(ft, ast.Compare) and len(ft.ops) == 1 and isinstance(ft.comparators[0], ast.Constant) \
+            and ft.comparators[0].value is None and isinstance(ft.ops[0], (ast.Is, ast.IsNot)):
+        if isinstance(ft.ops[0], ast.Is) != pol:
+            return None                                     # `v is not None` skips: no value to follow
+        v, kind = ft.left, 'none'
+
+    def fact_of(leaf):
+        if kind == 'none':
+            return (ast.Compare(left=leaf, ops=[ast.Is()], comparators=[ast.Constant(value=None)]), True, None)
+        return (leaf, kind == 'truthy', None)
+
+    if isinstance(v, ast.IfExp) or (isinstance(v, ast.BoolOp) and isinstance(v.op, ast.Or) and kind == 'none'):
+        out = []
+        for g, leaf in _cases(v):
+            m = _value_is(leaf, kind)
+            if m is False:
+                continue
+            facts = [(a, p, None) for a, p in _atoms(list(g))]
+            if m is None:
+                facts.append(fact_of(leaf))
+            out.extend(_skip_reasons_documented(prog, fi, facts, env, depth + 1))
+        return out
+    if not isinstance(v, ast.Call):
+        return None
+    call, callee = v, None
+    for frame in (getattr(call, '_fi', None), fi):
+        if frame is None:
+            continue
+        try:
+            callee = resolve_call(prog, frame, call)
+        except Exception:
+            callee = None
+        if callee is not None:
+            break
+    node = getattr(callee, 'node', None)
+    if node is None or not isinstance(node, ast.FunctionDef) or node.args.vararg or node.args.kwarg \
+            or any(isinstance(x, (ast.Yield, ast.YieldFrom, ast.Await)) for x in walk_no_nested(node)):
+        return None
+    if any(d for d in callee.decorators() if not any(k in d for k in ('staticmethod', 'classmethod'))):
+        return None
+    cenv = dict(_arg_map(callee, call))
+    pos = node.args.posonlyargs + node.args.args
+    for arg, d in list(zip(pos[len(pos) - len(node.args.defaults):], node.args.defaults)) + \
+            [(x, d) for x, d in zip(node.args.kwonlyargs, node.args.kw_defaults) if d is not None]:
+        cenv.setdefault(arg.arg, d)
+    out, exits = [], 0
+    for r in walk_no_nested(node):
+        if not isinstance(r, ast.Return):
+            continue
+        rv_ = r.value if r.value is not None else ast.Constant(value=None)
+        m = _value_is(_subst(node, rv_), kind)
+        if m is False:
+            continue
+        exits += 1
+        facts = _guard_facts(r)
+        if m is None:
+            facts.append(fact_of(rv_)[:2] + (r,))
+        out.extend(_skip_reasons_documented(prog, callee, facts, cenv, depth + 1))
+    if kind in ('none', 'falsy') and _Sym(prog).block(callee, node.body, {}, [], [], {}) is not None:
+        out.append(f'{callee.qualname}: the skipping result is what running off its end gives')
+    if kind == 'truthy' and not exits:
+        return None
+    return out
 
 
 def _stmt_list_of(st: ast.stmt):
@@ -3281,6 +3442,34 @@ class _DistInterp(_Interp):
         return super().exec(st, fi, sc)
 
 
+def _calls_reaching(prog, root, target, depth: int = 3):
+    """[(function, call, env)]: the calls of `target` written in `root` or in a repository function `root` calls (up to
+    `depth` levels; the helpers `root` hands its values to), env: parameter of that function -> the expression `root`
+    passed for it (locals of the frames in between replaced by their single definitions)"""
+    out, seen = [], set()
+
+    def visit(fi, env, d):
+        if id(fi) in seen:
+            return
+        seen.add(id(fi))
+        for c in calls_in(fi.node):
+            try:
+                callee = resolve_call(prog, fi, c)
+            except Exception:
+                callee = None
+            if callee is None:
+                continue
+            if callee == target:
+                out.append((fi, c, env))
+            elif d < depth and getattr(callee, 'node', None) is not None and callee.module is not None \
+                    and not any(isinstance(x, ast.Starred) for x in c.args) and not any(k.arg is None for k in c.keywords):
+                cenv = {p_: _param_subst(_subst(fi.node, a_), env) for p_, a_ in _arg_map(callee, c).items()}
+                visit(callee, cenv, d + 1)
+
+    visit(root, {}, 0)
+    return out
+
+
 def _rule_r7(ctx, prog, add, dck):
     """the plausibility rule, decided by running _distance_check (the checker's interpreter, geodesic answer given)
     over a grid that has a point in every region of: geodesic distance against the zero threshold, stated distance
@@ -3340,12 +3529,14 @@ def _rule_r7(ctx, prog, add, dck):
                   'relative_difference_threshold_percent': 10.0}
     ctx.ob('C13-R7', dck, f'thresholds {dflt}', ok, '±10 %, ignoring < 50 km' if ok else 'documented thresholds changed',
            nontrivial=False)
-    dc = [c for c in calls_in(add.node) if resolve_call(prog, add, c) == dck]
+    dc = _calls_reaching(prog, add, dck)
     ok = False
     if dc and given is not None:
+        site, call0, penv = dc[0]
+        dc = [call0]
         arg = _arg_map(dck, dc[0]).get(given)
         if arg is not None:
-            fa = _subst(add.node, arg)
+            fa = _param_subst(_subst(site.node, arg), penv)
             # by value: <the row's distance> x 1.609344 (the statute mile in km), however the factor is named or written
             try:
                 from ..algebra import AlgebraError, normal_form
@@ -3585,8 +3776,9 @@ def _writers_as_written_once(prog, fns) -> list[str]:
     """The rules below read each writer as *one function over its parameters*.  A pull request that gathers the values of
     a flight's operating pattern in a state object (a dataclass built by the importer and handed to the writer) and turns
     the writer's loop into a generator method of that object computes the same thing in three places; this puts it back
-    into one: a generator of the writer's own module consumed by one `for` loop of the writer runs in the place of that
-    loop (astutil.splice_generator_loops), and a record parameter that is only read by field is one parameter per field
+    into one: a generator of the writer's own module consumed by one `for` loop of the writer - or drained on the spot
+    into a list (`list(g(..))`, `[*g(..)]`, `.extend(g(..))`: astutil.drains_as_loops writes the loop) - runs in the
+    place of that loop (astutil.splice_generator_loops), and a record parameter that is only read by field is one parameter per field
     (`_dissolve_record_parameters`).  Nothing is assumed about what the pieces are called; what cannot be put back
     faithfully is left as it is (and the rules then say what they cannot follow)."""
     notes = []
@@ -3613,8 +3805,10 @@ def _writers_as_written_once(prog, fns) -> list[str]:
                 if node is None:
                     return None
             return node, r.qualname, recv
+        drains_as_loops(fi.node, resolve)
         for tag in splice_generator_loops(fi.node, resolve):
             notes.append(f'{fi.qualname}: generator {tag} consumed in place')
+        fold_drained_appends(fi.node)
         for p in _dissolve_record_parameters(prog, fi):
             notes.append(f'{fi.qualname}: record parameter {p} dissolved')
     return notes
